@@ -204,11 +204,17 @@ def r2_left_right(rule, root=None):
             rule.bad("%s|shape" % variant, "choice arm must `match choice_iter.next().unwrap()`", A.where(fn, arm))
             continue
         cases = {}
+        lab = T.split_variant(variant)[1]
         for ca in inner[0]["arms"]:
             for p in A.flatten_or(ca["pat"]):
                 segs, _ = A.pat_variant(p)
-                cases[segs[-1] if segs else "_"] = ca
-        lab = T.split_variant(variant)[1]
+                nm_ = segs[-1] if segs else "_"
+                if ca.get("guard") is not None or nm_ in cases:
+                    # a choice means the same for every op it is recorded for: Left *is* the first operand (its value,
+                    # sign of zero and derivatives included), not something one opcode may replace by a constant
+                    rule.bad("%s|%s|special-case" % (lab, nm_), "Choice::%s has a second / guarded case (`%s`): simplification must continue with the operand the choice names for every op alike" % (nm_, A.unparse(ca.get("guard") or ca["pat"])[:50]), A.where(fn, ca))
+                    continue
+                cases[nm_] = ca
         for want in ("Left", "Right", "Both", "Unknown"):
             if want not in cases:
                 rule.bad("%s|%s|missing" % (lab, want), "choice arm (%s forms) has no case for Choice::%s" % (lab, want), A.where(fn, arm))
